@@ -9,7 +9,7 @@ RULE = ("prefixmatch (hostport.c static) on the full (prefix length x first diff
         "or a lookup with >=2 blocks of the wanted transport")
 EXHAUSTIVE = {"quick": ["prefixmatch: all (len 0..32 x differing bit none/0..31) for IPv4 and (len 0..128 x bit none/0..127) for IPv6, 3 bases each"],
               "thorough": ["prefixmatch: same grid, 12 bases each"]}
-ASSUMPTIONS = ["host entries are numeric (one resolved address per entry); name resolution itself (getaddrinfo) is a parameter",
+ASSUMPTIONS = ["name resolution itself (getaddrinfo) is a parameter: a host entry's resolved addresses are given (numeric entries: one; names: a list of either family, chained the way getaddrinfo returns them)",
                "prefix lengths are those the parser accepts (0..32 IPv4, 0..128 IPv6, or none)"]
 LEVEL_TEXT = ("Lean 4 theorems: prefixmatch compares exactly the leading len bits (prefixmatch_iff, any address length, via a kernel-checked mask-table lemma); "
               "findConf_meets_spec: for EVERY ordered block list and source, the block returned is the first of the transport whose host list contains the source "
@@ -72,6 +72,7 @@ def gen(rng, tier):
         toks = []
         nblocks = rng.randrange(1, 5)
         wantcount = 0
+        multi = False
         for _b in range(nblocks):
             ty = want if rng.random() < 0.7 else rng.randrange(4)
             wantcount += ty == want
@@ -92,6 +93,18 @@ def gen(rng, tier):
                     prefix = 255
                     port = rng.choice([None, 1812, srcport, srcport, 1813])
                     toks.append(f"E{efam}:{hexs(a)}:255:{port if port is not None else 1812}:{text_of(efam, a, 255, port)}")
+                    # a host given by name may resolve to several addresses, of either family, in any order
+                    for _a in range(rng.choice([0, 0, 0, 1, 1, 2, 3])):
+                        afam = rng.choice([fam, fam, 4, 6])
+                        aw = 4 if afam == 4 else 16
+                        if afam == fam:
+                            aa = src if rng.random() < 0.6 else flip(src, rng.randrange(aw * 8))
+                        elif afam == 6 and rng.random() < 0.4:
+                            aa = bytes([0] * 10 + [255, 255]) + src
+                        else:
+                            aa = bytes(rng.randrange(256) for _ in range(aw))
+                        toks.append(f"A{afam}:{hexs(aa)}:{rng.choice([1812, srcport, srcport, port if port is not None else 1812])}")
+                        multi = True
                 else:                 # prefix around the first differing bit
                     prefix = rng.randrange(0, ew * 8 + 1)
                     d = min(ew * 8 - 1, max(0, prefix + rng.choice([-2, -1, -1, 0, 0, 1, 5, -9])))
@@ -108,7 +121,7 @@ def gen(rng, tier):
         elif fam == 6 and rng.random() < 0.1:     # near-miss of the mapped prefix
             saddr = bytes([0] * 10 + [255, rng.choice([255, 254])]) + src[12:]
         cs.append(Case(f"findconf {want} {1 if serverp else 0} {sfam} {hexs(saddr)} {srcport} " + " ".join(toks),
-                       kind="findconf", blocks=nblocks, nontriv=wantcount >= 2))
+                       kind="findconf", blocks=nblocks, multi=multi, nontriv=wantcount >= 2))
     return cs
 
 
